@@ -60,7 +60,7 @@ func Run(c *hctx.Ctx) {
 	g := &gen{c: c, r: c.R, w: w}
 	n := 60
 	if !c.Quick() {
-		n = 700
+		n = 1500
 	}
 	// (the recorder keeps the first 200 oracle failures: the message oracles come first, the exhaustive helper
 	// enumerations last)
